@@ -95,6 +95,12 @@ def run(tier):
     td = os.path.join(lib.HARNESS, "target", "layoutdyn")
     pb = subprocess.run(["cargo", "build", "--offline", "--target-dir", td], cwd=dyn, capture_output=True, text=True, env=lib.cargo_env())
     if pb.returncode != 0:
+        if c.violations:
+            # the field tables already disagree with the specification (a slot is missing, say): the crate that reads real
+            # objects at the predicted positions cannot be expected to compile; the static verdict stands
+            c.cov["raw_word_checks"] = "not run: the dynamic layout crate does not compile (see violations)"
+            c.finish({"evaluations": n_cases + runs, "distinct_nontrivial": n_cases, "independent_expansions": runs, "exhaustive": True,
+                      "rule": "static field tables only"})
         raise lib.ToolError("dynamic layout crate does not compile against /repo:\n" + pb.stderr[-2000:])
     rc, _, outp = lib.run_adapter([os.path.join(td, "debug", "layoutdyn")])
     if rc != 0:
